@@ -70,6 +70,8 @@ def run_one(cfg, seed, c, hole):
     from tempest import Sampler
     cfg = dict(cfg)
     sharp = cfg.pop("sharp", False)   # a likelihood so peaked that the first positive temperature is the search resolution 2^-14
+    f32 = cfg.pop("f32", False)       # a prior transform that hands out single-precision parameters (the likelihood still returns doubles)
+    ptf = (lambda u: (8.0 * u - 4.0).astype(np.float32)) if f32 else pt
 
     def like(x):
         if hole and x[0] < -3.0:
@@ -78,7 +80,7 @@ def run_one(cfg, seed, c, hole):
             return -sharp * float(np.sum(x ** 2)) + c
         return -0.5 * float(np.sum(x ** 2)) + 0.2 * float(np.sin(2 * x[0])) + c
 
-    s = Sampler(pt, like, n_dim=2, n_particles=14, random_state=seed, **cfg)
+    s = Sampler(ptf, like, n_dim=2, n_particles=14, random_state=seed, **cfg)
     s.run(n_total=50, progress=False)
     st = s.state
     x, w, l = s.posterior()
@@ -166,7 +168,8 @@ def band_probe(run, tier, rng):
 
 def sweep(run, tier, rng):
     cfgs = [dict(clustering=False), dict(clustering=True, sample="rwm", resample="syst"), dict(clustering=False, volume_variation=0.5),
-            dict(clustering=False, volume_variation=0.05), dict(clustering=False, sharp=1000.0, hole=True), dict(clustering=False, sharp=6000.0, hole=True), dict(clustering=False, sample="rwm", sharp=3000.0, hole=True)]
+            dict(clustering=False, volume_variation=0.05), dict(clustering=False, sharp=1000.0, hole=True), dict(clustering=False, sharp=6000.0, hole=True), dict(clustering=False, sample="rwm", sharp=3000.0, hole=True),
+            dict(clustering=False, f32=True, hole=False), dict(clustering=False, sample="rwm", resample="syst", f32=True, hole=True)]
     if tier != "quick":
         cfgs += [dict(clustering=True), dict(clustering=False, sample="rwm"), dict(clustering=True, volume_variation=0.5, resample="syst")]
     shifts = [1e-3, -1.0, 37.5, -1e3] if tier == "quick" else [1e-3, -1e-3, 1.0, -1.0, 37.5, -37.5, 1e3, -1e3]
